@@ -42,6 +42,53 @@ pub fn run_case<G: AffineRepr>(run: u64, case: &Case, st: &mut Stats) {
         }
     };
     st.steps += pr.steps + 1;
+    // adversarial prover that REPAIRS relation (b) of a proof made from a
+    // witness violating linear constraints: t_x' = t_x +- x^2 sum_q z^(q+1) e_q
+    // (e_q = by how much constraint q is violated).  (b) then holds and (c)
+    // fails through t_x' != <l, r>; a verifier that drops the t_x / a*b term
+    // for some circuit shape accepts.
+    if !pr.satisfied {
+        let (gates_ok, errs): (bool, Vec<<G as AffineRepr>::ScalarField>) = {
+            let sh = _out.shared.borrow();
+            let m = &sh.model;
+            ((0..m.gates).all(|i| m.a_l[i] * m.a_r[i] == m.a_o[i]), m.cons.iter().map(|c| m.eval_lin(c)).collect())
+        };
+        if gates_ok {
+            if let Some(rf0) = ref_verdict::<G>(&sc.st, &pr.commitments, &pr.bytes) {
+                let mut k = <G as AffineRepr>::ScalarField::zero();
+                let mut zq = rf0.z;
+                for e in &errs {
+                    k += zq * e;
+                    zq *= rf0.z;
+                }
+                k *= rf0.x * rf0.x;
+                if let Ok(pf) = crate::codec::ProofFields::<G>::parse(&pr.bytes) {
+                    for sign in [true, false] {
+                        let mut f = pf.clone();
+                        if sign { f.scs[0] += k } else { f.scs[0] -= k }
+                        let fb = f.encode();
+                        let Some(rf) = ref_verdict::<G>(&sc.st, &pr.commitments, &fb) else { continue };
+                        if !rf.rel_b {
+                            continue;
+                        }
+                        st.eval();
+                        st.fault("adversarial-prover-repairs-relation-b");
+                        st.probe("relation-b-repaired");
+                        let real = deliver::<G>(&sc.st, &pr.commitments, &fb, &case.base.cap_v);
+                        if !real.panicked && real.accepted != rf.accept() {
+                            st.violate(Violation {
+                                run,
+                                oracle: "verdict-equals-relations".into(),
+                                signature: format!("verdict-mismatch:repair-b:real={}", real.accepted),
+                                detail: format!("proof from a witness violating a linear constraint, with t_x rewritten so that relation (b) holds: real {} vs reference {} (n1={}, n2={})", real.text, rf.why(), pr.n1, pr.n2),
+                                case: to_value(case),
+                            });
+                        }
+                    }
+                }
+            }
+        }
+    }
     // adversarial prover with knowledge of every weight derivable too early
     if case.wfault.is_none() {
         for (pos, fb) in { let all = adaptive_forgeries::<G>(&sc.st, &pr.commitments, &pr.bytes); let n = all.len(); all.into_iter().enumerate().filter(move |(i, (p, _))| *p > 1000 && (*i + (run as usize)) % 3 == 0 || *i + 10 >= n).map(|(_, x)| x) } {
